@@ -18,6 +18,12 @@ pub struct EncCase {
     /// permutation (0..24) of the order in which the four builder options are applied; the result
     /// must not depend on it
     pub order: u8,
+    /// bit mask of "noise" builder calls made *before* the real options (last call must win):
+    /// 1 with_fnc1_start(!fnc1), 2 with_macros(!macros), 4 with_encodation_types(other), 8 with_symbol_list(other)
+    pub prelude: u8,
+    /// leave out the real builder calls whose value equals the builder's default (unless a noise call for
+    /// that option was made before): exercises the defaults and "setter called twice" histories
+    pub skipdef: bool,
 }
 
 impl EncCase {
@@ -28,6 +34,12 @@ impl EncCase {
         }
         if self.order != 0 {
             c = c.with("order", self.order);
+        }
+        if self.prelude != 0 {
+            c = c.with("prelude", self.prelude);
+        }
+        if self.skipdef {
+            c = c.with("sd", 1);
         }
         c
     }
@@ -40,6 +52,8 @@ impl EncCase {
             fnc1: c.get_bool("fnc1"),
             eci: c.get("eci").and_then(|s| s.parse().ok()),
             order: c.get_usize("order") as u8,
+            prelude: c.get_usize("prelude") as u8,
+            skipdef: c.get_bool("sd"),
         }
     }
     pub fn key(&self) -> u64 {
@@ -90,13 +104,30 @@ pub fn builder(c: &EncCase) -> Option<DataMatrixBuilder> {
         code /= k;
     }
     let mut b = DataMatrixBuilder::new();
+    // noise calls first: a builder must forget them once the real option is set
+    if c.prelude & 1 != 0 {
+        b = b.with_fnc1_start(!c.fnc1);
+    }
+    if c.prelude & 2 != 0 {
+        b = b.with_macros(!c.macros);
+    }
+    if c.prelude & 4 != 0 {
+        b = b.with_encodation_types(modes_from_mask(!c.mask & 63));
+    }
+    if c.prelude & 8 != 0 {
+        b = b.with_symbol_list(datamatrix::SymbolSize::Square10);
+    }
     let mut list = Some(list);
     for o in order {
+        // in skip-defaults mode a real call is made only if its value differs from the builder default or a
+        // noise call for the same option has to be overridden
+        let needed = |bit: u8, is_default: bool| !c.skipdef || !is_default || c.prelude & bit != 0;
         b = match o {
-            0 => b.with_symbol_list(list.take().unwrap()),
-            1 => b.with_encodation_types(modes_from_mask(c.mask)),
-            2 => b.with_macros(c.macros),
-            _ => b.with_fnc1_start(c.fnc1),
+            0 if needed(8, c.list == "default") => b.with_symbol_list(list.take().unwrap()),
+            1 if needed(4, c.mask == 63) => b.with_encodation_types(modes_from_mask(c.mask)),
+            2 if needed(2, c.macros) => b.with_macros(c.macros),
+            3 if needed(1, !c.fnc1) => b.with_fnc1_start(c.fnc1),
+            _ => b,
         };
     }
     Some(b)
@@ -126,7 +157,7 @@ pub fn do_encode(c: &EncCase, want_bitmap: bool) -> EncOut {
 pub fn gen_case(rng: &mut Rng, max_len: usize) -> EncCase {
     let input = inputs::gen_input(rng, max_len);
     let (list, mask) = if rng.chance(1, 4) { ("default".to_string(), 63) } else { (inputs::gen_list_spec(rng), inputs::gen_mask(rng)) };
-    EncCase { input, list, mask, macros: rng.chance(1, 2), fnc1: rng.chance(1, 8), eci: None, order: if rng.chance(1, 2) { 0 } else { rng.below(24) as u8 } }
+    EncCase { input, list, mask, macros: rng.chance(1, 2), fnc1: rng.chance(1, 8), eci: None, order: if rng.chance(1, 2) { 0 } else { rng.below(24) as u8 }, prelude: if rng.chance(3, 4) { 0 } else { rng.below(16) as u8 }, skipdef: rng.chance(1, 3) }
 }
 
 /// coverage tags of one stream, from its R-DEC event log
